@@ -2,6 +2,10 @@ import DimodProofs.Vars
 import DimodProofs.VarsInv
 import DimodProofs.VarsRelabel
 import DimodProofs.VarsSteps
+import DimodProofs.VarsMore
+import DimodProofs.VarsWhole
+import DimodProofs.VarsKeys
+import DimodProofs.VarsKeysRelabel
 
 /-! # C13 — Variables is an order-preserving bijection between labels and indices
 
@@ -13,7 +17,14 @@ Main results: `step_refines` (every operation preserves the representation invar
 the iteration order exactly what the list specification says, including whether the call raises)
 and `history_refines` (hence every history from the empty object).  The only side condition is
 `Op.WF`: the key/value literal of a `relabel` has pairwise distinct keys (it is a Python dict);
-`relabel_dupkey_counterexample` shows that it cannot be dropped for the model as written. -/
+`relabel_dupkey_counterexample` shows that it cannot be dropped for the model as written.
+
+Round 6 (sections at the end): whole-mapping relabel theorems (`relabel_whole_mapping`, `relabel_merge_rejected`,
+`relabel_raises_iff_merge`, `relabel_raises_iff`), `relabelAsIntegers_restore`, the extended alphabet
+(`_extend`, copy, pickle, slicing: `step2_refines`, `history2_refines`), readers (`readers_are_list`,
+`eq_is_list_eq`, `slice_refines`), rules regenerated from the source (`autoLabel_rule_from_source`,
+`errClass_matches_list`), and numeric aliases: Python objects as keys (`key_equality_is_canon`,
+`primitives_factor_through_canon`, `object_relabel_remove_factor`, `object_history_all_mutators`). -/
 
 namespace C13
 
@@ -190,6 +201,244 @@ theorem relabel_dupkey_counterexample :
       LSpec.step s.abs (.relabel m) = ([.str "c"], true) := by
   decide +kernel
 
+/-! ## round 6: whole mappings, restore, the extended history, every reader, source-extracted rules
+
+`DimodModel/VarsMore.lean` adds `_extend`, `copy`, the pickle round trip, `__iter__`, `__len__`,
+`__contains__`, `__getitem__(slice)`, `__eq__`, the constructor and the auto-label rule written over
+`Generated/VarsRules.lean` (regenerated from `cyvariables.pyx` / `utilities.py` on every run). -/
+
+open VState (Op2)
+
+/-- **whole mapping.**  For ANY mapping with distinct keys (partial, swapping, cyclic, chains through labels
+    that are not variables, absent keys), `_relabel` as coded (conflict check of `iter_safe_relabels`, one- or
+    two-phase plan with intermediate labels) does exactly one of two things: it returns, the state is sound and
+    iteration yields `[mapping.get(l, l) for l in labels]`; or it raises, the object is untouched, and the
+    mapping is a rejected one (two keys share a target, or a target is an existing label that is not a key). -/
+theorem relabel_whole_mapping (s : VState) (h : s.Inv) (m : List (Label × Label)) (hk : (m.map Prod.fst).Nodup) :
+    (∃ s', s.relabel m = some s' ∧ s.step (.relabel m) = (s', true) ∧ s'.Inv ∧
+        s'.abs = s.abs.map (fun l => (LSpec.lookup m l).getD l) ∧ ¬ VState.Rejected m s.abs) ∨
+    (s.relabel m = none ∧ s.step (.relabel m) = (s, false) ∧ VState.Rejected m s.abs) :=
+  VState.relabel_total s h m hk
+
+/-- a relabel that would merge two labels is rejected without changing anything -/
+theorem relabel_merge_rejected (s : VState) (h : s.Inv) (m : List (Label × Label)) (hk : (m.map Prod.fst).Nodup)
+    (hmerge : ¬ (s.abs.map (fun l => (LSpec.lookup m l).getD l)).Nodup) :
+    s.relabel m = none ∧ s.step (.relabel m) = (s, false) :=
+  VState.relabel_rejects_merge s h m hk hmerge
+
+/-- `_relabel` raises exactly for the rejected mappings -/
+theorem relabel_raises_iff (s : VState) (h : s.Inv) (m : List (Label × Label)) (hk : (m.map Prod.fst).Nodup) :
+    s.relabel m = none ↔ VState.Rejected m s.abs :=
+  VState.relabel_none_iff s h m hk
+
+/-- **exactly**: when every key of the mapping is a variable (the documented use), `_relabel` raises — changing
+    nothing — if and only if the mapping would merge two labels -/
+theorem relabel_raises_iff_merge (s : VState) (h : s.Inv) (m : List (Label × Label)) (hk : (m.map Prod.fst).Nodup)
+    (hsub : ∀ k ∈ m.map Prod.fst, k ∈ s.abs) :
+    (s.relabel m = none ∧ s.step (.relabel m) = (s, false)) ↔
+      ¬ (s.abs.map (fun l => (LSpec.lookup m l).getD l)).Nodup := by
+  constructor
+  · intro hn; exact (VState.relabel_none_iff_merge s h m hk hsub).1 hn.1
+  · intro hm; exact VState.relabel_rejects_merge s h m hk hm
+
+/-- a swap is accepted, mapping both onto one label is a merge -/
+example : wS.Inv ∧ (∀ k ∈ [(Label.int 2, Label.int 0), (.int 0, .int 2)].map Prod.fst, k ∈ wS.abs) ∧
+    (wS.abs.map (fun l => (LSpec.lookup [(Label.int 2, Label.int 0), (.int 0, .int 2)] l).getD l)).Nodup ∧
+    ¬ (wS.abs.map (fun l => (LSpec.lookup [(Label.int 2, Label.int 7), (.int 0, .int 7)] l).getD l)).Nodup :=
+  ⟨wS_inv, by decide +kernel⟩
+
+/-- the rejection test of the code is coarser than "would merge": `{"zz": "a"}` on `[2, "a", 0, 3]` is rejected
+    although the key is absent and nothing would be merged (the reference list of the harness rejects it too) -/
+example : wS.Inv ∧ ([(Label.str "zz", Label.str "a")].map Prod.fst).Nodup ∧
+    wS.relabel [(.str "zz", .str "a")] = none ∧
+    (wS.abs.map (fun l => (LSpec.lookup [(Label.str "zz", Label.str "a")] l).getD l)).Nodup :=
+  ⟨wS_inv, by decide +kernel⟩
+
+/-- a 3-cycle through an absent label plus an absent key: accepted -/
+example : wS.Inv ∧ ¬ VState.Rejected [(Label.int 2, Label.str "a"), (.str "a", .int 0), (.int 0, .int 2), (.int 9, .int 11)] wS.abs := by
+  refine ⟨wS_inv, ?_⟩
+  rw [← VState.relabelOk_false_iff _ (by decide +kernel)]
+  decide +kernel
+
+/-- `_relabel_as_integers` leaves `range(n)` and returns the mapping that restores the labels -/
+theorem relabelAsIntegers_restore (s : VState) (h : s.Inv) :
+    s.relabelAsIntegers.1.Inv ∧
+    s.relabelAsIntegers.1.abs = (List.range s.abs.length).map (fun i => Label.int (i : Nat)) ∧
+    ∃ s2, s.relabelAsIntegers.1.relabel (VState.restoreMap s.relabelAsIntegers.2) = some s2 ∧ s2.Inv ∧ s2.abs = s.abs :=
+  VState.relabelAsIntegers_restore s h
+
+/-- the auto-label rule *as extracted from the source* (`Generated.VarsRules`) yields the documented label,
+    which is not yet present -/
+theorem autoLabel_rule_from_source (s : VState) (h : s.Inv) :
+    s.autoLabelG = LSpec.autoLabel s.abs ∧ s.autoLabelG ∉ s.abs := by
+  rw [VState.autoLabelG_eq_autoLabel]
+  exact ⟨VState.autoLabel_eq s h, VState.autoLabel_fresh s h⟩
+
+/-- the exception class of every rejected call is the one a Python list raises for the same call
+    (classes read from the source) -/
+theorem errClass_matches_list (op : Op2) : VState.errClass op = LSpec.errClass op := by
+  cases op with
+  | base op => cases op <;> rfl
+  | _ => rfl
+
+theorem reader_errClass : VState.errAt = .index ∧ VState.errIndex = .value := ⟨rfl, rfl⟩
+
+/-- `_extend`: the fold of appends, a raising call keeps the appended prefix -/
+theorem extend_refines (s : VState) (h : s.Inv) (vs : List (Option Label)) (p : Bool) :
+    (s.extend vs p).1.Inv ∧ ((s.extend vs p).1.abs, (s.extend vs p).2) = LSpec.extend s.abs vs p :=
+  VState.extend_refines vs p s h
+
+/-- `copy()` and the pickle round trip give a sound object with the same labels in the same order -/
+theorem copy_pickle_refine (s : VState) (h : s.Inv) :
+    (s.copy.Inv ∧ s.copy.abs = s.abs) ∧ (s.pickleRoundTrip.Inv ∧ s.pickleRoundTrip.abs = s.abs) ∧
+      VState.setState s.reduce = s :=
+  ⟨VState.copy_spec s h, VState.pickle_spec s h, rfl⟩
+
+/-- `Variables(iterable)` / `Variables(range(n))` -/
+theorem constructor_refines (vs : List Label) (n : Nat) :
+    ((VState.ofList vs).Inv ∧ (VState.ofList vs).abs = (LSpec.extend [] (vs.map some) true).1 ∧
+      ∀ x, x ∈ (VState.ofList vs).abs ↔ x ∈ vs) ∧
+    ((VState.ofRange n).Inv ∧ (VState.ofRange n).abs = (List.range n).map fun i => Label.int (i : Nat)) :=
+  ⟨⟨(VState.ofList_spec vs).1, (VState.ofList_spec vs).2, VState.ofList_mem vs⟩, VState.ofRange_spec n⟩
+
+/-- `__iter__` (both branches), `__len__`, `__contains__` are those of the list -/
+theorem readers_are_list (s : VState) (h : s.Inv) :
+    s.iter = s.abs ∧ s.len = s.abs.length ∧ ∀ v, (s.contains v = true ↔ v ∈ s.abs) :=
+  ⟨VState.iter_eq_abs s h, VState.len_eq s, VState.contains_iff s h⟩
+
+/-- `==`: with a sequence it is list equality (ordered), with a set it is equality of the element sets, else False -/
+theorem eq_is_list_eq (s : VState) (h : s.Inv) (o : List Label) :
+    (s.eqOther (.seq o) = true ↔ s.abs = o) ∧ (s.eqOther (.set o) = true ↔ ∀ x, x ∈ s.abs ↔ x ∈ o) ∧
+      s.eqOther .other = false :=
+  ⟨VState.eqOther_seq s h o, VState.eqOther_set s h o, rfl⟩
+
+/-- `v[slice]` is Python list slicing (`slice.indices`, then the selected positions in order); the result is a
+    sound object; the only rejected slices are those with a zero step -/
+theorem slice_refines (s : VState) (h : s.Inv) (sl : SSM.PySlice) :
+    (s.getSlice sl).map VState.abs = LSpec.slice s.abs sl ∧ (∀ s', s.getSlice sl = some s' → s'.Inv) ∧
+      (s.getSlice sl = none ↔ sl.step = some 0) := by
+  refine ⟨(VState.getSlice_refines s h sl).1, (VState.getSlice_refines s h sl).2, ?_⟩
+  have h1 := (VState.getSlice_refines s h sl).1
+  constructor
+  · intro hn
+    rw [hn] at h1
+    simp only [Option.map_none, LSpec.slice, SSM.sliceIndices, SSM.sliceBounds] at h1
+    cases hs : sl.step with
+    | none => simp [hs] at h1
+    | some c =>
+      by_cases hc : c = 0
+      · rw [hc]
+      · simp [hs, hc] at h1
+  · intro hs
+    cases hg : s.getSlice sl with
+    | none => rfl
+    | some s' =>
+      rw [hg] at h1
+      simp [LSpec.slice, SSM.sliceIndices, SSM.sliceBounds, hs] at h1
+
+example : wS.Inv ∧ (wS.getSlice ⟨some (-1), none, some (-2)⟩).map VState.abs = some [.int 3, .str "a"] ∧
+    wS.getSlice ⟨none, none, some 0⟩ = none := ⟨wS_inv, by decide +kernel⟩
+
+/-- every operation of the extended alphabet (mutators, `_extend`, copy, pickle, slicing) preserves the invariant
+    and refines the list specification, ok/raise flag included -/
+theorem step2_refines (s : VState) (h : s.Inv) (op : Op2) (hop : op.WF) :
+    (s.step2 op).1.Inv ∧ ((s.step2 op).1.abs, (s.step2 op).2) = LSpec.step2 s.abs op :=
+  VState.step2_refines s h op hop
+
+/-- **history theorem**: any finite sequence of append / auto-append / extend / pop / remove / relabel /
+    relabel-as-integers / clear / copy / pickle round trip / slice, from the empty object: the invariant holds at
+    the end, iteration yields the specification list, and every call returned or raised as the list says -/
+theorem history2_refines (ops : List Op2) (hwf : ∀ op ∈ ops, op.WF) :
+    let r := ops.foldl VState.bothStep2 (VState.empty, [], [])
+    r.1.Inv ∧ r.1.abs = r.2.1 ∧ ∀ p ∈ r.2.2, p.1 = p.2 := by
+  have := VState.history2_refines_from VState.empty VState.inv_empty ops hwf
+  rw [VState.abs_empty] at this
+  exact this
+
+example : ∀ op ∈ [Op2.base (.append none false), .extend [some (.str "a"), none, some (.int 0)] true, .copy,
+    .base (.relabel [(.int 0, .str "a"), (.str "a", .int 0)]), .pickle, .slice ⟨none, none, some (-1)⟩,
+    .base (.remove (.str "a")), .base .relabelInts], op.WF := by decide +kernel
+
+/-! ## numeric aliases: Python key equality is a canonicalisation, and the code factors through it
+
+`DimodModel/VarsKeys.lean`: `PyKey` (int, bool, integral float, NumPy integer / floating scalars, str, nested
+tuples), `pyEq` = Python `==` on them, `canon : PyKey → Label`, and `KState` = the sparse dictionaries holding the
+*objects*, with `count`, `index`, `_append`, `_pop` and the `_relabel` loop body written as coded
+(`PyLong_Check`, `isinstance(v, Number)`, `int(v) == v`, `PyDict_Contains`, `dict.pop`).  The harness checks
+`pyEq` and `canon` against CPython / NumPy dict lookups exhaustively over the alias table on every run. -/
+
+/-- Python `==` between label objects is equality of canonical labels (hence an equivalence relation) -/
+theorem key_equality_is_canon (a b : PyKey) : PyKey.pyEq a b = true ↔ PyKey.canon a = PyKey.canon b :=
+  PyKey.pyEq_iff a b
+
+/-- `1`, `True`, `1.0`, `np.int64(1)`, `np.float32(1.0)` are one label; so are tuples built from them -/
+example : PyKey.canon (.bool true) = .int 1 ∧ PyKey.canon (.float 1) = .int 1 ∧ PyKey.canon (.npInt 1) = .int 1 ∧
+    PyKey.canon (.npFloat 1) = .int 1 ∧ PyKey.pyEq (.tup [.bool true, .str "a"]) (.tup [.npFloat 1, .str "a"]) = true ∧
+    PyKey.pyEq (.str "1") (.int 1) = false ∧ PyKey.pyEq (.tup [.int 1]) (.int 1) = false := by decide +kernel
+
+/-- every primitive of `cyvariables.pyx` written over Python objects factors through `canon`: the object-level
+    state abstracts (`toV`) to the label-level state, and `count`, `index`, `_append`, `_pop`, the `_relabel` loop
+    body commute with the abstraction -/
+theorem primitives_factor_through_canon (k : KState) (h : k.toV.Inv) :
+    (∀ v, k.count v = k.toV.count (PyKey.canon v)) ∧
+    (∀ v, k.idxOf v = k.toV.idxOf (PyKey.canon v)) ∧
+    (∀ v, (k.append v).toV = k.toV.append (PyKey.canon v)) ∧
+    (k.stop ≠ 0 → k.toV.pop = some (k.pop.1.toV, PyKey.canon k.pop.2)) ∧
+    (∀ old new, (k.relabelOne old new).toV = k.toV.relabelOne (PyKey.canon old) (PyKey.canon new)) :=
+  ⟨KState.count_factors k h, KState.idxOf_factors k, KState.append_factors k, KState.pop_factors k,
+    KState.relabelOne_factors k⟩
+
+/-- histories of append / auto-append / pop / clear / relabel-as-integers over *objects* (numeric aliases included):
+    the object-level state abstracts, step by step and flag by flag, to the label-level run of the canonicalised
+    operations, the invariant holds throughout, `index`, the auto label and iteration factor through `canon` -/
+theorem object_history_factors (k : KState) (h : k.toV.Inv) (ops : List KState.KOp) :
+    ((ops.foldl (fun k op => (k.step op).1) k).toV =
+        (ops.map KState.KOp.toOp).foldl (fun s op => (s.step op).1) k.toV ∧
+      (ops.foldl (fun k op => (k.step op).1) k).toV.Inv) ∧
+    (∀ op, ((k.step op).1.toV, (k.step op).2) = k.toV.step op.toOp) ∧
+    (∀ v, k.index? v = k.toV.index? (PyKey.canon v)) ∧
+    PyKey.canon k.autoLabel = k.toV.autoLabel ∧
+    (List.range k.stop).map (fun i => PyKey.canon (k.labelAt i)) = k.toV.abs :=
+  ⟨KState.history_factors ops k h, KState.step_factors k h, KState.index?_factors k h, KState.autoLabel_factors k h,
+    KState.abs_factors k⟩
+
+/-- `_relabel(mapping)` and `_remove(v)` over objects (`iter_safe_relabels` / `resolve_label_conflict` with `==`
+    dictionary lookups, mapping keys and values numeric aliases or not) factor through `canon`: same accept / reject,
+    and the resulting object-level state abstracts to the label-level result of the canonicalised mapping -/
+theorem object_relabel_remove_factor (k : KState) (h : k.toV.Inv) :
+    (∀ m : KState.KDict, ((m.map KState.cc).map Prod.fst).Nodup →
+      (k.relabel m).map KState.toV = k.toV.relabel (m.map KState.cc)) ∧
+    (∀ v, (k.remove v).map KState.toV = k.toV.remove (PyKey.canon v)) :=
+  ⟨fun m hk => KState.relabel_factors k h m hk, KState.remove_factors k h⟩
+
+/-- **every mutator over objects**: histories of append / auto-append / pop / clear / relabel-as-integers / relabel /
+    remove on Python objects abstract step by step (flags included) to the label-level history of the canonicalised
+    operations — to which `history_refines` applies -/
+theorem object_history_all_mutators (k : KState) (h : k.toV.Inv) (ops : List KState.KOp2)
+    (hwf : ∀ op ∈ ops, op.toOp.WF) :
+    ((ops.foldl (fun k op => (k.step2 op).1) k).toV =
+        (ops.map KState.KOp2.toOp).foldl (fun s op => (s.step op).1) k.toV ∧
+      (ops.foldl (fun k op => (k.step2 op).1) k).toV.Inv) ∧
+    (∀ op : KState.KOp2, op.toOp.WF → ((k.step2 op).1.toV, (k.step2 op).2) = k.toV.step op.toOp) :=
+  ⟨KState.history2_factors ops k h hwf, fun op hop => KState.step2_factors k h op hop⟩
+
+/-- a swap through aliases: `{1.0: "a", "a": True}` on `["a", np.int64(1)]` -/
+example : (KState.mk [(0, .str "a")] [(.str "a", 0)] 2).toV.Inv ∧
+    ((KState.mk [(0, .str "a")] [(.str "a", 0)] 2).relabel [(.float 1, .str "a"), (.str "a", .bool true)]).map
+      (fun k => k.toV.abs) = some [.int 1, .str "a"] :=
+  ⟨VState.inv_of_invCheck _ (by decide +kernel), by decide +kernel⟩
+
+/-- hence membership / `count` of any alias is list membership of its canonical label -/
+theorem alias_count_iff_mem (k : KState) (h : k.toV.Inv) (v : PyKey) :
+    k.count v = true ↔ PyKey.canon v ∈ k.toV.abs := by
+  rw [KState.count_factors k h v]; exact VState.count_iff k.toV h _
+
+example : (KState.mk [(0, .str "a"), (2, .npInt 0)] [(.str "a", 0), (.float 0, 2)] 3).toV.Inv ∧
+    (KState.mk [(0, .str "a"), (2, .npInt 0)] [(.str "a", 0), (.float 0, 2)] 3).count (.bool false) = true ∧
+    (KState.mk [(0, .str "a"), (2, .npInt 0)] [(.str "a", 0), (.float 0, 2)] 3).count (.npFloat 1) = true ∧
+    (KState.mk [(0, .str "a"), (2, .npInt 0)] [(.str "a", 0), (.float 0, 2)] 3).count (.int 2) = false :=
+  ⟨VState.inv_of_invCheck _ (by decide +kernel), by decide +kernel⟩
+
 end C13
 
 section Axioms
@@ -205,4 +454,17 @@ section Axioms
 #print axioms C13.history_refines_flags
 #print axioms C13.relabel_dupkey_counterexample
 #print axioms C13.wS_inv
+#print axioms C13.relabel_whole_mapping
+#print axioms C13.relabel_merge_rejected
+#print axioms C13.relabelAsIntegers_restore
+#print axioms C13.autoLabel_rule_from_source
+#print axioms C13.slice_refines
+#print axioms C13.step2_refines
+#print axioms C13.history2_refines
+#print axioms C13.key_equality_is_canon
+#print axioms C13.primitives_factor_through_canon
+#print axioms C13.object_history_factors
+#print axioms C13.object_history_all_mutators
+#print axioms C13.object_relabel_remove_factor
+#print axioms C13.relabel_raises_iff_merge
 end Axioms
